@@ -84,20 +84,26 @@ def logical(reg):
     reg.add(Contract(
         '_ifs', 'runtime:_ifs', {**SELF, 'flatten_list': 'list'}, self_class='ExcelInPython',
         requires=['len(flatten_list) % 2 == 0',
-                  'all(not is_err(flatten_list[i]) for i in range(len(flatten_list)))'],
+                  'all(is_fn(flatten_list[i]) for i in range(len(flatten_list)))',
+                  # the conditions can be evaluated; a value has to be computable only when its condition is true - the value
+                  # paired with a false condition may raise
+                  'all(implies(i % 2 == 0, not raises0(flatten_list[i])) for i in range(len(flatten_list)))',
+                  'all(implies(p % 2 == 0 and truthy(call0(flatten_list[p])), not raises0(flatten_list[p + 1])) '
+                  'for p in range(len(flatten_list)))'],
         ensures={
-            # the two clauses say "the value paired with the first true condition, #N/A when none is true" without an
-            # existential (the disjunctive form with any(...) was decided in 0.8 s .. 29 s .. unknown from run to run: the
-            # solver has to guess the witness); over a finite list they are equivalent to it (a true condition has a first one)
-            'first_true_pair': 'all(implies(p % 2 == 0 and truthy(flatten_list[p]) and '
-                               'all(implies(q % 2 == 0, not truthy(flatten_list[q])) for q in range(p)), '
-                               'result == flatten_list[p + 1]) for p in range(len(flatten_list)))',
-            'none_true': 'implies(all(implies(q % 2 == 0, not truthy(flatten_list[q])) for q in range(len(flatten_list))), '
-                         'result == "#N/A")',
+            # "the value paired with the first true condition, #N/A when none is true" without an existential (the form with
+            # any(...) was decided in 0.8 s .. 29 s .. unknown from run to run); over a finite list the clauses are equivalent to it
+            'first_true_pair': 'all(implies(p % 2 == 0 and truthy(call0(flatten_list[p])) and not is_err(call0(flatten_list[p])) and '
+                               'all(implies(q % 2 == 0, not truthy(call0(flatten_list[q])) and not is_err(call0(flatten_list[q]))) for q in range(p)), result == call0(flatten_list[p + 1])) for p in range(len(flatten_list)))',
+            'none_true': 'implies(all(implies(q % 2 == 0, not truthy(call0(flatten_list[q])) and not is_err(call0(flatten_list[q]))) for q in range(len(flatten_list))), result == "#N/A")',
+            'error_condition': 'all(implies(p % 2 == 0 and is_err(call0(flatten_list[p])) and all(implies(q % 2 == 0, not truthy(call0(flatten_list[q])) and not is_err(call0(flatten_list[q]))) for q in range(p)), '
+                               'result == call0(flatten_list[p])) for p in range(len(flatten_list)))',
         },
         invariants={0: {'even': 'is_int(index) and I(index) % 2 == 0 and I(index) >= 0',
-                        'none_true_before': 'all(implies(q % 2 == 0, not truthy(flatten_list[q])) for q in range(I(index)))'}},
-        notes='value paired with the first true condition, #N/A when none is true'))
+                        'none_true_before': 'all(implies(q % 2 == 0, not truthy(call0(flatten_list[q])) and not is_err(call0(flatten_list[q]))) for q in range(I(index)))'}},
+        notes='value paired with the first true condition, #N/A when none is true, the first condition that is an error value is '
+              'returned; the arguments are abstract 0-ary callables and no exception is allowed: the value paired with a false '
+              'condition may raise without effect (laziness)'))
 
 
 def text(reg):
@@ -622,17 +628,19 @@ def flatten(reg):
 
 def logical2(reg):
     reg.add(Contract(
-        '_iferror', 'runtime:_iferror', {**SELF, 'condition_function': 'fn', 'when_error': 'scalar'},
+        '_iferror', 'runtime:_iferror', {**SELF, 'condition_function': 'fn', 'when_error': 'fn'},
         self_class='ExcelInPython',
+        requires=['implies(raises0(condition_function) or is_err(call0(condition_function)), not raises0(when_error))'],
         ensures={
-            'fallback_when_raises': 'implies(raises0(condition_function), result == when_error)',
+            'fallback_when_raises': 'implies(raises0(condition_function), result == call0(when_error))',
             'fallback_when_error_value': 'implies(not raises0(condition_function) and is_err(call0(condition_function)), '
-                                         'result == when_error)',
+                                         'result == call0(when_error))',
             'value_otherwise': 'implies(not raises0(condition_function) and not is_err(call0(condition_function)), '
                                'result == call0(condition_function))',
         },
         notes='IFERROR returns its fallback exactly when evaluating the first argument fails or yields one of the '
-              'seven Excel error values; the guarded expression is an abstract callable'))
+              'seven Excel error values; both arguments are abstract callables and no exception is allowed: a fallback that is not '
+              'needed may raise without effect (laziness)'))
 
 
 def _raises0_py(f):
